@@ -377,7 +377,7 @@ func (c *DefaultCtx) Body() []byte {
 func (c *DefaultCtx) ClearCookie(key ...string) {
 	if len(key) > 0 {
 		for i := range key {
-			c.fasthttp.Response.Header.DelClientCookie(key[i])
+			c.fasthttp.Response.Header.DelClientCookie(headerSafe(key[i]))
 		}
 		return
 	}
@@ -412,10 +412,14 @@ func (c *DefaultCtx) SetContext(ctx context.Context) {
 // Cookie sets a cookie by passing a cookie struct.
 func (c *DefaultCtx) Cookie(cookie *Cookie) {
 	fcookie := fasthttp.AcquireCookie()
-	fcookie.SetKey(cookie.Name)
-	fcookie.SetValue(cookie.Value)
-	fcookie.SetPath(cookie.Path)
-	fcookie.SetDomain(cookie.Domain)
+	fcookie.SetKey(headerSafe(cookie.Name))
+	fcookie.SetValue(headerSafe(cookie.Value))
+	fcookie.SetPath(headerSafe(cookie.Path))
+	if p := fcookie.Path(); bytes.IndexByte(p, '\r') != -1 || bytes.IndexByte(p, '\n') != -1 {
+		// fasthttp percent-decodes the path: "%0d%0a" must not become a line break either
+		fcookie.SetPath(headerSafe(string(p)))
+	}
+	fcookie.SetDomain(headerSafe(cookie.Domain))
 	// only set max age and expiry when SessionOnly is false
 	// i.e. cookie supposed to last beyond browser session
 	// refer: https://developer.mozilla.org/en-US/docs/Web/HTTP/Cookies#define_the_lifetime_of_a_cookie
@@ -497,7 +501,7 @@ func (c *DefaultCtx) Format(handlers ...ResFmt) error {
 	c.Vary(HeaderAccept)
 
 	if c.Get(HeaderAccept) == "" {
-		c.Response().Header.SetContentType(handlers[0].MediaType)
+		c.Response().Header.SetContentType(headerSafe(handlers[0].MediaType))
 		return handlers[0].Handler(c)
 	}
 
@@ -525,7 +529,7 @@ func (c *DefaultCtx) Format(handlers ...ResFmt) error {
 
 	for _, h := range handlers {
 		if h.MediaType == accept {
-			c.Response().Header.SetContentType(h.MediaType)
+			c.Response().Header.SetContentType(headerSafe(h.MediaType))
 			return h.Handler(c)
 		}
 	}
@@ -880,7 +884,7 @@ func (c *DefaultCtx) JSON(data any, ctype ...string) error {
 	}
 	c.fasthttp.Response.SetBodyRaw(raw)
 	if len(ctype) > 0 {
-		c.fasthttp.Response.Header.SetContentType(ctype[0])
+		c.fasthttp.Response.Header.SetContentType(headerSafe(ctype[0]))
 	} else {
 		c.fasthttp.Response.Header.SetContentType(MIMEApplicationJSON)
 	}
@@ -898,7 +902,7 @@ func (c *DefaultCtx) CBOR(data any, ctype ...string) error {
 	}
 	c.fasthttp.Response.SetBodyRaw(raw)
 	if len(ctype) > 0 {
-		c.fasthttp.Response.Header.SetContentType(ctype[0])
+		c.fasthttp.Response.Header.SetContentType(headerSafe(ctype[0]))
 	} else {
 		c.fasthttp.Response.Header.SetContentType(MIMEApplicationCBOR)
 	}
@@ -1736,7 +1740,22 @@ func (c *DefaultCtx) Set(key, val string) {
 }
 
 func (c *DefaultCtx) setCanonical(key, val string) {
-	c.fasthttp.Response.Header.SetCanonical(utils.UnsafeBytes(key), utils.UnsafeBytes(val))
+	c.fasthttp.Response.Header.SetCanonical(utils.UnsafeBytes(key), utils.UnsafeBytes(headerSafe(val)))
+}
+
+// headerSafe replaces CR and LF, which would end the header line and let the rest of the value
+// become a header field or the body, by spaces - like fasthttp does for Header.Set.
+func headerSafe(s string) string {
+	if strings.IndexByte(s, '\r') == -1 && strings.IndexByte(s, '\n') == -1 {
+		return s
+	}
+	b := []byte(s)
+	for i := range b {
+		if b[i] == '\r' || b[i] == '\n' {
+			b[i] = ' '
+		}
+	}
+	return string(b)
 }
 
 // Subdomains returns a string slice of subdomains in the domain name of the request.
@@ -1810,7 +1829,7 @@ func (c *DefaultCtx) String() string {
 // Type sets the Content-Type HTTP header to the MIME type specified by the file extension.
 func (c *DefaultCtx) Type(extension string, charset ...string) Ctx {
 	if len(charset) > 0 {
-		c.fasthttp.Response.Header.SetContentType(utils.GetMIME(extension) + "; charset=" + charset[0])
+		c.fasthttp.Response.Header.SetContentType(utils.GetMIME(extension) + "; charset=" + headerSafe(charset[0]))
 	} else {
 		c.fasthttp.Response.Header.SetContentType(utils.GetMIME(extension))
 	}
